@@ -131,9 +131,28 @@ func (state *State) NextBlock() wire.Block {
 	result := state.blocksRequested[0].block
 	state.pendingBlockSize -= state.blocksRequested[0].size
 	state.lastSavedHash = state.blocksRequested[0].hash
+	processingHash := state.blocksRequested[0].hash
+	state.processingHash = &processingHash
 	state.blocksRequested = state.blocksRequested[1:] // Remove first item
 
 	return result
+}
+
+// FinishedBlock is called when processing of the block returned by NextBlock is complete.
+func (state *State) FinishedBlock() {
+	state.lock.Lock()
+	defer state.lock.Unlock()
+
+	state.processingHash = nil
+}
+
+// BlockIsProcessing returns true if the block has been taken by NextBlock and is still being
+// processed. It is no longer a requested block and might not be in the block repository yet.
+func (state *State) BlockIsProcessing(hash *bitcoin.Hash32) bool {
+	state.lock.Lock()
+	defer state.lock.Unlock()
+
+	return state.processingHash != nil && state.processingHash.Equal(hash)
 }
 
 func (state *State) GetNextBlockToRequest() (*bitcoin.Hash32, int) {
